@@ -35,11 +35,8 @@ func VerifQuiet() { mlog.SetLvl(zerolog.Disabled) }
 func VerifPackReq(ecs bool, name []byte, typ, class uint16, addr netip.Addr) ([]byte, error) {
 	r := &router{}
 	r.opt.ecsEnabled = ecs
-	q := dnsmsg.NewQuestion()
-	q.Name = append(q.Name[:0], name...)
-	q.Type = dnsmsg.Type(typ)
-	q.Class = dnsmsg.Class(class)
-	defer dnsmsg.ReleaseQuestion(q)
+	// packReq copies the question; this one is not pool-owned and is never released
+	q := &dnsmsg.Question{Name: dnsmsg.Name(name), Type: dnsmsg.Type(typ), Class: dnsmsg.Class(class)}
 	b, err := r.packReq(q, addr)
 	if err != nil {
 		return nil, err
